@@ -229,7 +229,7 @@ impl U {
         Some(format!("({}, {}, {})", self.term(v.get("subject")?)?, self.pterm(v.get("predicate")?)?, self.term(v.get("object")?)?))
     }
 
-    fn prop_matcher(&self, v: &Value) -> Option<String> {
+    pub fn prop_matcher(&self, v: &Value) -> Option<String> {
         let (tag, p) = variant(v).ok()?;
         match tag {
             "Id" => Some(format!("(id: {})", self.scalar(p)?)),
@@ -483,16 +483,32 @@ impl U {
         if let Some(h) = spec.get("handle")?.as_str() {
             out.push(format!("?{}", self.ident(h)?));
         }
-        out.push(format!(
-            "({}, {}, {})",
-            self.term(spec.get("subject")?)?,
-            self.patom(spec.get("predicate")?)?,
-            self.term(spec.get("object")?)?
-        ));
+        match spec.get("matcher").filter(|m| !m.is_null()) {
+            Some(m) => out.push(self.prop_matcher(m)?),
+            None => out.push(format!(
+                "({}, {}, {})",
+                self.term(spec.get("subject")?)?,
+                self.patom(spec.get("predicate")?)?,
+                self.term(spec.get("object")?)?
+            )),
+        }
         out.push(self.asg(spec.get("members")?)?);
         let sup = spec.get("superseding")?;
         if !sup.is_null() {
             out.push(format!("{} {}", self.kw("SUPERSEDING"), self.eref(sup)?));
+        }
+        Some(out.join(" "))
+    }
+
+    /// `ENSURE PROPOSITION [?h] <proposition expression> [EXPECT VERSION 3]` from an ensure spec.
+    pub fn ensure_stmt(&self, spec: &Value) -> Option<String> {
+        let mut out = vec![self.kw("ENSURE PROPOSITION")];
+        if let Some(h) = spec.get("handle")?.as_str() {
+            out.push(format!("?{}", self.ident(h)?));
+        }
+        out.push(self.prop_matcher(spec.get("matcher")?)?);
+        if spec.get("expect_version")?.as_bool()? {
+            out.push(format!("{} 3", self.kw("EXPECT VERSION")));
         }
         Some(out.join(" "))
     }
